@@ -84,6 +84,7 @@ class BoolList:
 class KeyT:
     """PRNG key as a derivation term"""
     __slots__ = ("t",)
+    shape = (2,)
 
     def __init__(self, t):
         self.t = t
@@ -97,6 +98,10 @@ class KeyVec:
 
     def __init__(self, parent, n):
         self.parent, self.n = parent, n
+
+    @property
+    def shape(self):
+        return (self.n, 2)
 
     def __getitem__(self, i):
         if isinstance(i, tuple):  # engine: keys[:, 0, :] / keys[:, 1:, :]
